@@ -17,7 +17,7 @@ tier: B
 backend: cadical
 unwind: 10
 unwind_thorough: 12
-bound: list length <= 4, any key
+bound: list length <= 4, any key [thorough tier: lengths up to 5]
 funcs: spif_dlinked_list_append
 */
 /*@unit
@@ -28,7 +28,7 @@ tier: B
 backend: cadical
 unwind: 10
 unwind_thorough: 12
-bound: list length <= 4, any key
+bound: list length <= 4, any key [thorough tier: lengths up to 5]
 funcs: spif_dlinked_list_prepend
 */
 /*@unit
@@ -116,7 +116,7 @@ tier: B
 backend: cadical
 unwind: 10
 unwind_thorough: 12
-bound: list length <= 4, all 2^32 index values
+bound: list length <= 4, all 2^32 index values [thorough tier: lengths up to 5]
 funcs: spif_dlinked_list_remove_at
 */
 /*@unit
@@ -127,7 +127,7 @@ tier: B
 backend: cadical
 unwind: 10
 unwind_thorough: 12
-bound: list length <= 4, all 2^32 index values
+bound: list length <= 4, all 2^32 index values [thorough tier: lengths up to 5]
 funcs: spif_dlinked_list_get
 */
 /*@unit
@@ -138,7 +138,7 @@ tier: B
 backend: cadical
 unwind: 10
 unwind_thorough: 12
-bound: list length <= 4, all key values incl. duplicates and placeholders
+bound: list length <= 4, all key values incl. duplicates and placeholders [thorough tier: lengths up to 5]
 funcs: spif_dlinked_list_remove
 */
 /*@unit
@@ -149,7 +149,7 @@ tier: B
 backend: cadical
 unwind: 10
 unwind_thorough: 12
-bound: list length <= 4, all key values incl. duplicates and placeholders
+bound: list length <= 4, all key values incl. duplicates and placeholders [thorough tier: lengths up to 5]
 funcs: spif_dlinked_list_index, spif_dlinked_list_find, spif_dlinked_list_contains
 */
 /*@unit
@@ -160,7 +160,7 @@ tier: B
 backend: cadical
 unwind: 10
 unwind_thorough: 12
-bound: list length 1..4
+bound: list length 1..4 [thorough tier: lengths up to 5]
 funcs: spif_dlinked_list_reverse
 */
 /*@unit
@@ -182,7 +182,7 @@ tier: B
 backend: cadical
 unwind: 10
 unwind_thorough: 12
-bound: list length <= 4
+bound: list length <= 4 [thorough tier: lengths up to 5]
 funcs: spif_dlinked_list_to_array
 */
 /*@unit
@@ -193,7 +193,7 @@ tier: B
 backend: cadical
 unwind: 10
 unwind_thorough: 12
-bound: list length <= 4
+bound: list length <= 4 [thorough tier: lengths up to 5]
 funcs: spif_dlinked_list_iterator, spif_dlinked_list_iterator_new, spif_dlinked_list_iterator_init, spif_dlinked_list_iterator_has_next, spif_dlinked_list_iterator_next, spif_dlinked_list_iterator_del
 */
 #include "vprelude.h"
